@@ -131,3 +131,12 @@ META["C02"] = dict(
     level_note=("Trusted: the reference model (status class only, 'either' where the documented sets and the RFC differ); the raw RTSP reader "
                 "(the library's own conn.Conn, verified separately by C04)."),
 )
+
+META["C01"] = dict(
+    design_ref="DESIGN.md section 4, C01",
+    technique="stateful property-based testing (rapid): generated delivery histories (writes, bursts, readers joining/pausing/leaving) through a real server and real clients on four transports, whole-history invariant against the log of written packets",
+    level_text=("Exploration: generated worlds and action histories; every delivered packet is matched against the written log (identity, order, "
+                "at-most-once, SSRC), payloads are retained and re-compared at the end, and on reliable transports completeness is required "
+                "between PLAY and a flush point unless a queue-full was reported."),
+    level_note=("Trusted: loopback networking; the flush-by-sentinel barrier (5 s); goroutine interleavings are sampled by repetition, not controlled."),
+)
